@@ -25,10 +25,10 @@ RULE = ("(1) real gen_wilson runs on shapes 1x1..7x7 (oblong, 1xk) under the tap
         "function on 2x2, 2x3, 3x2 (and 1x3, 3x1, 2x1): distinct = distinct script; (4) seeds derived from VERIF_SEED")
 ASSUMPTIONS = ["numpy's global RNG delivers independent draws, uniform on the requested range (the RNG's own law is assumed; the check "
                "verifies that the code requests exactly the ranges the model's `arity` says, with no weights)",
-               "uniformity is proved for the 2x2, 2x3, 3x2, 3x3 grids (up to 1e-9, for every number of draws from n0 on); larger grids are "
+               "uniformity is proved for the 2x2, 2x3, 3x2, 3x3, 2x4, 4x2 grids (up to 1e-9, for every number of draws from n0 on); larger grids are "
                "Wilson's theorem, not mechanised (C19_full stays unproved; C19_full_partial is the claim)"]
-TRUSTED = ["Lean.ofReduceBool / Lean.trustCompiler (native_decide) for the four probability tables in Props/C19Tables.lean and "
-           "Props/C19Table33.lean, and only there", "the scripted/recording shims on numpy.random.choice / numpy.random.randint"]
+TRUSTED = ["Lean.ofReduceBool / Lean.trustCompiler (native_decide) for the six probability tables in Props/C19Tables.lean, Props/C19Table33.lean and "
+           "Props/C19Table24.lean, and only there", "the scripted/recording shims on numpy.random.choice / numpy.random.randint"]
 SMALL = {(2, 2): 4, (2, 3): 15, (3, 2): 15, (3, 3): 192, (2, 4): 56, (4, 2): 56}
 
 
